@@ -97,6 +97,21 @@ CHECKS.update({
         note="trusted: renderer/rewriter in vf/calgen.py and vf/props/c09.py (validated against TLC's Render on the small pool only by construction), TLC.", design="5 C09"),
 })
 
+CHECKS.update({
+    "C11": dict(engine="ZonedTime",
+        technique="TLA+ wire rule for zoned / UTC / floating date-times (Write, Read, WireOK, UTC-forced properties) model-checked over a toy domain with arbitrary step offset functions; executions recorded over zone ids x wall times around provider transitions x property kinds x providers x tzinfo sources validated by TLC trace spec",
+        text="TLC proves Read(Write(v)) = v, the TZID/Z rule and instant preservation for UTC-forced properties for every offset function with a gap or a fold on the toy domain; the real code is driven over zone ids (all IANA ids in thorough) and wall times produced from the provider's own transitions (incl. gap and fold walls, midpoints, random walls 1900-2100) for DTSTART, RDATE lists and FREEBUSY periods under both providers and with zoneinfo/pytz/dateutil tzinfo objects; every row (wire fields, values read back, provider offset) is judged by RowClauses/UtcClauses in Trace_ZonedTime.",
+        note="trusted: the provider (zoneinfo/pytz) as reference for offsets, wire projection regex and row construction in vf/props/c11.py, TLC. dateutil: wall time only.", design="5 C11"),
+    "C12": dict(engine="VTimezone",
+        technique="TLA+ spec of RFC 5545 VTIMEZONE interpretation (Gregorian arithmetic, yearly nth-weekday expansion, onset = local - TZOFFSETFROM, OffsetsAt/NamesAt) and of the process-wide VTIMEZONE cache (TzCache) model-checked; TLC-computed probe tables replayed on time zone objects built by both providers; cache histories replayed",
+        text="TLC expands families of definitions (fixed, yearly pairs with open/COUNT/UNTIL ends, RDATE sets, a permanent change before a yearly pair) and computes the admissible offset/name/kind at every onset -1/0/+1 minute and 45 days later; each zone is rendered, converted with Timezone.to_tz under zoneinfo and pytz and probed at those instants (second 0 and 59); the TzCache model's full graph gives every history over one custom TZID with the design-level failure set (InvDelta: mirror departs from Ref exactly in the known class), replayed against the real parser.",
+        note="trusted: gamma (rendering of parameters to VTIMEZONE text) in vf/props/c12.py, TLC. Minute resolution; rules to 2038.", design="5 C12"),
+    "C13": dict(engine="VTimezone",
+        technique="TLA+ model of the coarse-to-fine search of from_tzinfo model-checked (sound; complete only for transitions further apart than the coarsest step); generated VTIMEZONE components recorded for zone ids x providers x windows and validated by TLC against the source zone using the RFC onset rule (OffsetsAt/NamesAt), WellFormedGen, to_tz agreement and regeneration",
+        text="TLC proves the ladder search sound and refutes completeness for short excursions (src = {1,2}); for each zone/window the generated component's observances (alpha of the component itself), the source zone's transitions and a probe table (every transition -1s/0/+1s, midpoints, random instants) are recorded and TLC interprets the component by the RFC rule independently of the library's own conversion; mismatches are classified by TLC into the known classes (displaced onsets, periods shorter than 64 days, abbreviation-only changes) or reported as violations.",
+        note="trusted: the provider as reference; transitions found by a 6-hour scan + bisection; alpha of components in vf/props/c13.py; TLC.", design="5 C13"),
+})
+
 NOT_YET = "not yet built in this round (specification and binding under construction; see DESIGN.md section 10)"
 
 
